@@ -22,7 +22,7 @@ def cases(ctx):
         tx = G.gen_tx(rng, names, max_in=rng.choice([3, 8, 40]), max_out=rng.choice([3, 8]), big=rng.random() < 0.05)
         ctx.count('gen-' + ('segwit' if tx.has_segwit else 'legacy'))
         yield c(tx, 'gen')
-    for n in (0, 1, 2, 3, 127, 128, 129, 252, 253, 254, 300):
+    for n in sorted(set([0, 1, 2, 3, 127, 128, 129, 252, 253, 254, 300] + [v for v in G.source_literals() if v <= 300])):
         for itemlen in (0, 1, 64, 253, 70000 if n <= 3 else 75):
             for nin in (1, 2, 3):
                 ins = [TxInput(G.rbytes(rng, 32).hex(), i) for i in range(nin)]
